@@ -331,6 +331,7 @@ def oracle(ctx, scale):
     oracle_shells(ctx, scale, rs)
     oracle_hybrids(ctx, scale, rs)
     oracle_rotator_glue(ctx, scale, rs)
+    oracle_long_history(ctx, scale, rs)
     oracle_dwann(ctx, scale, rs)
 
 
@@ -485,6 +486,79 @@ def oracle_rotator_glue(ctx, scale, rs):
             A2 = rotator(sym, rot_cart=R, basis1=b1, basis2=b2)
             if np.abs(A2 - A).max() > 0:
                 ctx.fail("OrbitalRotator cache returned a different matrix for the same rotation", case)
+
+
+def oracle_long_history(ctx, scale, rs):
+    """C21 is a property of the rotator OBJECT for all rotations it is ever asked for: ONE OrbitalRotator is asked for
+    many hundred distinct rotations (random O(3) and crystallographic, several symbols interleaved, local bases now
+    and then), earlier rotations are re-asked in between, and EVERY answer is compared with the answer of a FRESH
+    rotator and with the pointwise substitution test.  Any cache keyed by position / capacity / history must return
+    the matrix of the rotation that was asked for."""
+    from wannierberri.symmetry.orbitals import OrbitalRotator, orbitals_sets_dic
+    from scipy.linalg import block_diag
+    rotator = OrbitalRotator()
+    pts = rs.normal(size=(8, 3))
+    crystal = cubic_group() + hexagonal_group()
+    ntot = ctx.n(850, 2500) * (1 if scale == 1 else 2)
+    asked = []          # (symbol, R_effective, answer)
+    nfail = 0
+    ndist = 0
+    for it in range(ntot):
+        u = rs.rand()
+        sym = "p" if u < 0.90 else ("s" if u < 0.93 else ("d" if u < 0.96 else ("s;p" if u < 0.98 else "sp3")))
+        reask = len(asked) > 10 and rs.rand() < 0.2
+        b1 = b2 = None
+        if reask:
+            j = int(rs.randint(len(asked)))
+            if rs.rand() < 0.5:
+                j = int(rs.randint(min(len(asked), 40)))        # one of the very first rotations
+            sym0, R, prev = asked[j]
+            if sym0 != sym and rs.rand() < 0.5:
+                prev = None                                      # an earlier rotation, now for another symbol
+            else:
+                sym = sym0
+        else:
+            R = crystal[int(rs.randint(len(crystal)))] if rs.rand() < 0.1 else rand_O3(rs)
+            prev = None
+            ndist += 1
+            if rs.rand() < 0.05:
+                b1, b2 = rand_O3(rs, improper=False), rand_O3(rs, improper=False)
+        case = dict(what="OrbitalRotator long history", request_number=it, symbol=sym, R=R, reasked=bool(reask),
+                    distinct_rotations_so_far=ndist)
+        with ctx.attempt("OrbitalRotator (long history)", case):
+            if b1 is not None:
+                A = rotator(sym, rot_cart=R, basis1=b1, basis2=b2)
+                R = b2 @ R @ b1.T
+            else:
+                A = rotator(sym, rot_cart=R)
+            fresh = OrbitalRotator()(sym, rot_cart=R)
+            names = [o for sh in sym.split(";") for o in orbitals_sets_dic[sh]]
+            ctx.case(signature=("hist", it, sym, R.tobytes()), nontrivial=True)
+            msg = None
+            if A.shape != fresh.shape or np.abs(A - fresh).max() > 1e-12:
+                msg = (f"a REUSED OrbitalRotator returns a matrix that differs from a fresh rotator's by "
+                       f"{np.abs(A - fresh).max() if A.shape == fresh.shape else 'shape'} (request {it}, {ndist} distinct rotations so far)")
+            elif prev is not None and np.abs(A - prev).max() > 0:
+                msg = "re-asking an earlier rotation gives a different matrix than the first time"
+            else:
+                # substitution test blockwise (joined symbols are block diagonal)
+                off = 0
+                for sh in sym.split(";"):
+                    nsh = len(orbitals_sets_dic[sh])
+                    blk = A[off:off + nsh, off:off + nsh]
+                    dfc = substitution_defect(orbitals_sets_dic[sh], R, blk, pts)
+                    if dfc > 1e-10:
+                        msg = f"matrix returned for '{sh}' is not the matrix of the rotation asked for (substitution defect {dfc:.3e})"
+                    off += nsh
+            if msg:
+                nfail += 1
+                if nfail <= 3:
+                    ctx.fail("OrbitalRotator long history: " + msg, case)
+            if not reask:
+                asked.append((sym, R, A))
+    ctx.count("oracle.history.requests", ntot)
+    ctx.count("oracle.history.distinct_rotations", ndist)
+    ctx.count("oracle.history.failures", nfail)
 
 
 def oracle_dwann(ctx, scale, rs):
